@@ -73,6 +73,7 @@ type FuncContract struct {
 	HasMods      bool
 	Uses         []string
 	Terminates   bool
+	MayPanic     bool // "panics": explicit panic statements of this function are documented behaviour (Must* helpers); reported as an assumption
 	Callbacks    []string
 	CallbackRank map[string]int // ranks of traced callbacks (ghost event trace)
 	Ghosts       []*GhostVar
@@ -110,7 +111,7 @@ type ContractFile struct {
 var clauseKeywords = map[string]bool{
 	"pred": true, "def": true, "spec": true, "axiom": true, "func": true, "lemma": true,
 	"requires": true, "ensures": true, "modifies": true, "decreases": true, "loop": true,
-	"pure": true, "inline": true, "trusted": true, "terminates": true, "callback": true, "ghost": true,
+	"pure": true, "inline": true, "trusted": true, "terminates": true, "panics": true, "callback": true, "ghost": true,
 }
 
 func ParseContractFile(path, pkg string) (*ContractFile, error) {
@@ -240,6 +241,8 @@ func ParseContractFile(path, pkg string) (*ContractFile, error) {
 				cur.Trusted = true
 			case "terminates":
 				cur.Terminates = true
+			case "panics":
+				cur.MayPanic = true
 			default:
 				text := it.text
 				c := &Clause{Kind: it.kw, Line: it.line}
